@@ -210,6 +210,21 @@ func VerifC04Tunnel() {
 	} else {
 		vf.Assert(client.outEOF, "client-observes-end-of-stream-promptly")
 	}
+	// the end that is still open may go on sending: an end that only finished sending (FIN)
+	// still receives everything until the other end finishes as well
+	late := vf.Bytes("late-bytes", vf.Choice("late-len", 3))
+	if clientFirst {
+		target.in.send(late)
+		sentT = append(sentT, late...)
+	} else {
+		client.in.send(late)
+		sentC = append(sentC, late...)
+	}
+	vf.Quiesce()
+	if !abortive {
+		vf.Assert(bytes.Equal(target.out.Bytes(), sentC), "bytes-sent-after-the-other-end-half-closed-still-arrive")
+		vf.Assert(bytes.Equal(tunnelToClient(), sentT), "bytes-sent-after-the-other-end-half-closed-still-arrive")
+	}
 	// the other end closes as well: the proxy releases both connections
 	if clientFirst {
 		target.in.closeSend()
